@@ -15,6 +15,7 @@ import (
 	"strconv"
 	"strings"
 	"sync"
+	"syscall"
 	"time"
 
 	"github.com/moorara/algo/generic"
@@ -283,9 +284,21 @@ func exec(t table, impl, cmp, op string) (res string) {
 // ---------------------------------------------------------------- case runner with watchdog
 
 var (
-	hung     int
-	deadline = 10 * time.Second
+	hung        int
+	cpuDeadline = 15 * time.Second // CPU time the process may burn inside one case before it is declared hung
+	wallCap     = 15 * time.Minute // absolute cap (a goroutine blocked without burning CPU)
 )
+
+// cpuTime is the CPU time (user+system) consumed by this process so far. The watchdog counts CPU
+// time, not wall time: a descheduled process or a jump of the clock must not look like a hang,
+// whereas a genuinely spinning operation burns one core continuously.
+func cpuTime() time.Duration {
+	var ru syscall.Rusage
+	if err := syscall.Getrusage(syscall.RUSAGE_SELF, &ru); err != nil {
+		return 0
+	}
+	return time.Duration(ru.Utime.Nano() + ru.Stime.Nano())
+}
 
 func runCase(w *tr.W, impl, cmp string, ops []string) {
 	var mu sync.Mutex
@@ -304,13 +317,26 @@ func runCase(w *tr.W, impl, cmp string, ops []string) {
 			}
 		}
 	}()
-	timer := time.NewTimer(deadline)
 	timedOut := false
 	select {
 	case <-done:
-		timer.Stop()
-	case <-timer.C:
-		timedOut = true
+	case <-time.After(2 * time.Second):
+		// slow path: poll, charging CPU time (already hung goroutines keep burning their share)
+		c0, t0 := cpuTime(), time.Now()
+		tick := time.NewTicker(250 * time.Millisecond)
+	wait:
+		for {
+			select {
+			case <-done:
+				break wait
+			case <-tick.C:
+				if cpuTime()-c0 > time.Duration(hung+1)*cpuDeadline || time.Since(t0) > wallCap {
+					timedOut = true
+					break wait
+				}
+			}
+		}
+		tick.Stop()
 	}
 	mu.Lock()
 	got := append([]string(nil), res...)
@@ -672,7 +698,6 @@ func main() {
 			fmt.Fprintln(os.Stderr, err)
 			os.Exit(3)
 		}
-		deadline = 20 * time.Second
 		for _, c := range cs {
 			h := strings.Fields(c.Head)
 			if len(h) < 2 {
